@@ -61,6 +61,24 @@ func (c *Ctx) blsKeys(n int) []blsKey {
 		agg1, _ := crypto.AggregateBLSPrivateKeys([]crypto.PrivateKey{skFromInt(a), skFromInt(am1)})
 		keys = append(keys, blsKey{big.NewInt(1), agg1, agg1.PublicKey(), "aggregated-to-one"})
 	}
+	// aggregated private keys whose inputs had their own public key asked for in every pattern (none, first only, last
+	// only, middle only, all): the key pair is (sum of scalars, sum * g2) whichever was cached
+	for pat := 0; pat < 5; pat++ {
+		ks := []*big.Int{c.randScalar(), c.randScalar(), c.randScalar()}
+		sks := []crypto.PrivateKey{skFromInt(ks[0]), skFromInt(ks[1]), skFromInt(ks[2])}
+		for i, sk := range sks {
+			if pat == 4 || (pat >= 1 && pat <= 3 && i == []int{0, 0, 2, 1}[pat]) {
+				_ = sk.PublicKey()
+			}
+		}
+		sum := new(big.Int).Mod(new(big.Int).Add(new(big.Int).Add(ks[0], ks[1]), ks[2]), blsR)
+		if sum.Sign() == 0 {
+			continue
+		}
+		if ag, err := crypto.AggregateBLSPrivateKeys(sks); err == nil {
+			keys = append(keys, blsKey{sum, ag, ag.PublicKey(), fmt.Sprintf("aggregated-touch-pattern-%d", pat)})
+		}
+	}
 	// a key produced by RemoveBLSPublicKeys (possibly held in non-affine coordinates)
 	{
 		k1, k2 := c.randScalar(), c.randScalar()
